@@ -298,9 +298,22 @@ fn facts(state: &minidump_processor::ProcessState) -> String {
     }
     // registers of the requesting thread's frame 0, sorted by name (serde_json's Map is a BTreeMap)
     let mut regs: Vec<(String, u64, usize)> = vec![];
+    let mut ctx_kind: i32 = -1;
     if let Some(i) = state.requesting_thread {
         if let Some(fr) = state.threads.get(i).and_then(|t| t.frames.first()) {
             let ctx = &fr.context;
+            // raw context kind, in the order of translate/c15_regs.py's REGISTER_TABLES
+            ctx_kind = match ctx.raw {
+                MinidumpRawContext::X86(_) => 0,
+                MinidumpRawContext::Amd64(_) => 1,
+                MinidumpRawContext::Arm(_) => 2,
+                MinidumpRawContext::OldArm64(_) => 3,
+                MinidumpRawContext::Arm64(_) => 4,
+                MinidumpRawContext::Ppc(_) => 5,
+                MinidumpRawContext::Ppc64(_) => 6,
+                MinidumpRawContext::Mips(_) => 7,
+                MinidumpRawContext::Sparc(_) => 8,
+            };
             for &r in ctx.general_purpose_registers() {
                 let valid = match &ctx.valid {
                     MinidumpContextValidity::All => true,
@@ -315,6 +328,7 @@ fn facts(state: &minidump_processor::ProcessState) -> String {
     }
     regs.sort();
     regs.dedup_by(|a, b| a.0 == b.0);
+    f.push(format!("RK {}", ctx_kind));
     f.push(format!("REGS {}", regs.len()));
     for (n, v, d) in &regs {
         f.push(format!("{} {} {}", hexstr(n), v, d));
